@@ -5,6 +5,7 @@
 // directly by ksim::registration_points_into().
 #include <vmc_main.hpp>
 #include <ksim.hpp>
+#include <iokit.hpp>
 #include <unifex/linux/io_epoll_context.hpp>
 #include <unifex/inplace_stop_token.hpp>
 #include <unifex/scheduler_concepts.hpp>
@@ -21,48 +22,8 @@
 using namespace unifex;
 using unifex::linuxos::io_epoll_context;
 
+using namespace iokit;
 namespace {
-struct Done {
-  int count = 0; char how = '?'; long n = -1; int ec = 0; int thread = -2; long long when = 0;
-  std::string str() const { return std::string(1, how) + (how == 'V' ? std::to_string(n) : how == 'E' ? std::to_string(ec) : ""); }
-};
-// completion record + self-freeing heap operation
-struct Ctl {
-  Done d;
-  void* op = nullptr; size_t op_size = 0; void (*del)(void*) = nullptr;
-  std::unique_ptr<std::byte[]> buf; size_t buf_size = 0;
-  std::vector<unsigned char> got;    // bytes a read delivered (copied out before the buffer is freed)
-  void signal(char h, long n, int ec) {
-    ++d.count; d.how = h; d.n = n; d.ec = ec; d.thread = vmc::self(); d.when = vmcrt::now_ns();
-    if (d.count > 1) vmcrt::fail("C14,C01", "completed-twice", "an I/O context operation completed more than once");
-    if (h == 'V' && buf && n > 0 && (size_t)n <= buf_size) got.assign((unsigned char*)buf.get(), (unsigned char*)buf.get() + n);
-    // the operation and its buffer die here: nobody may touch them afterwards
-    if (op && ksim::registration_points_into(op, op_size))
-      vmcrt::fail("C14", "stale-registration", "an epoll registration still carries a pointer to the operation at the time it completes");
-    if (del) { auto dl = del; del = nullptr; dl(op); }
-    buf.reset();
-  }
-};
-template <class Token = inplace_stop_token>
-struct IoRcv {
-  Ctl* c; Token tok{};
-  void set_value() noexcept { c->signal('V', 0, 0); }
-  void set_value(ssize_t n) noexcept { c->signal('V', (long)n, 0); }
-  void set_error(std::error_code e) noexcept { c->signal('E', -1, e.value()); }
-  void set_error(std::exception_ptr) noexcept { c->signal('E', -1, -2); }
-  void set_done() noexcept { c->signal('D', -1, 0); }
-  friend Token tag_invoke(tag_t<get_stop_token>, const IoRcv& r) noexcept { return r.tok; }
-};
-template <class S, class R>
-struct Heap { connect_result_t<S, R> op; Heap(S&& s, R&& r) : op(unifex::connect((S&&)s, (R&&)r)) {} };
-template <class S, class R>
-auto& heap_connect(Ctl& c, S&& s, R&& r) {
-  using H = Heap<S, R>;
-  auto* h = new H((S&&)s, (R&&)r);
-  c.op = h; c.op_size = sizeof(H); c.del = [](void* p) { delete static_cast<H*>(p); };
-  return h->op;
-}
-
 struct World {
   ksim::Config cfg;
   std::optional<io_epoll_context> ctx;
@@ -72,6 +33,7 @@ struct World {
   bool run_returned = false;
   explicit World(const ksim::Config& c = ksim::Config{}) : cfg(c) {
     ksim::reset(cfg);
+    Ctl::stale = &ksim::registration_points_into;
     ctx.emplace();
   }
   void start_loop() {
